@@ -41,8 +41,8 @@ EpsRes(v) == UlpQ(Max3(Abs(lo), Abs(hi), Abs(v))) * (nEff \div 2 + 4)
 
 Advance(tags) ==
   /\ l' = l + 1
-  /\ dead' = (dead \/ tags # {})
-  /\ Flag(l, IF dead THEN {} ELSE tags)
+  /\ dead' = dead \cup PropsOf(tags)
+  /\ Flag(l, LiveTags(tags, dead))
 
 \* coverage of the current step after kk samples, output yy
 CoverageTags(kk, yy) ==
@@ -50,12 +50,12 @@ CoverageTags(kk, yy) ==
       res == Abs(x' - yy)
       er  == EpsRes(yy)
   IN IF ~quiet' \/ stp = 0 THEN {}
-     ELSE (IF nEff >= 100 /\ kk >= nEff + 1 /\ res > stp \div 200 + er THEN {"C14:not-reached-in-t"} ELSE {})
-     \cup (IF nEff >= 100 /\ kk >= nEff \div 10 + 2 /\ res > (stp \div 10) * 6 + 6 + er THEN {"C14:too-slow-at-tenth"} ELSE {})
-     \cup (IF nEff >= 100 /\ kk >= 1 /\ kk <= nEff \div 10 - 2 /\ res + er < (stp \div 100) * 45 THEN {"C14:too-fast-at-tenth"} ELSE {})
-     \cup (IF nEff = 2 /\ cached # -1 /\ cached < FastUs /\ kk >= 8 /\ res > stp \div 1000 + er + 8 THEN {"C14:fastest-not-settled"} ELSE {})
+     ELSE (IF nEff >= 100 /\ kk >= nEff + 1 /\ res > stp \div 200 + er THEN {<<"C14", "not-reached-in-t">>} ELSE {})
+     \cup (IF nEff >= 100 /\ kk >= nEff \div 10 + 2 /\ res > (stp \div 10) * 6 + 6 + er THEN {<<"C14", "too-slow-at-tenth">>} ELSE {})
+     \cup (IF nEff >= 100 /\ kk >= 1 /\ kk <= nEff \div 10 - 2 /\ res + er < (stp \div 100) * 45 THEN {<<"C14", "too-fast-at-tenth">>} ELSE {})
+     \cup (IF nEff = 2 /\ cached # -1 /\ cached < FastUs /\ kk >= 8 /\ res > stp \div 1000 + er + 8 THEN {<<"C14", "fastest-not-settled">>} ELSE {})
      \* three times the glide time (6 pi time constants) plus a few samples for very short times
-     \cup (IF kk >= 3 * nEff + 24 /\ res > stp \div 1000000 + er + 8 THEN {"C13:not-settled"} ELSE {})
+     \cup (IF kk >= 3 * nEff + 24 /\ res > stp \div 1000000 + er + 8 THEN {<<"C13", "not-settled">>} ELSE {})
 
 TMeta == e.op = "meta" /\ UNCHANGED <<gVars, dead, fs, nEff, from, k, quiet>> /\ l' = l + 1
 
@@ -63,7 +63,7 @@ TNew ==
   /\ e.op = "new"
   /\ cached' = -1 /\ eff' = 0 /\ pole' = 0 /\ y' = 0 /\ x' = 0 /\ lo' = 0 /\ hi' = 0
   /\ fs' = e.fs /\ nEff' = 2 /\ from' = 0 /\ k' = 0 /\ quiet' = FALSE
-  /\ l' = l + 1 /\ dead' = FALSE
+  /\ l' = l + 1 /\ dead' = {}
 
 TSetTime ==
   /\ e.op = "st"
@@ -87,12 +87,12 @@ TProcess ==
         /\ quiet' = IF held THEN quiet ELSE (Abs(x - y) <= EpsRes(y) + 16)
         /\ UNCHANGED <<cached, eff, pole, fs, nEff>>
         /\ Advance(
-             IF e.yq = NaNKey THEN {"C13:nan"} ELSE
-                  (IF e.yq < Min3(v, x, y) - ep \/ e.yq > Max3(v, x, y) + ep THEN {"C13:one-step-hull"} ELSE {})
-             \cup (IF e.yq < lo' - EpsRes(e.yq) \/ e.yq > hi' + EpsRes(e.yq) THEN {"C13:range"} ELSE {})
-             \cup (IF held /\ Abs(v - e.yq) > Abs(v - y) + ep THEN {"C13:retreats"} ELSE {})
+             IF e.yq = NaNKey THEN {<<"C13", "nan">>} ELSE
+                  (IF e.yq < Min3(v, x, y) - ep \/ e.yq > Max3(v, x, y) + ep THEN {<<"C13", "one-step-hull">>} ELSE {})
+             \cup (IF e.yq < lo' - EpsRes(e.yq) \/ e.yq > hi' + EpsRes(e.yq) THEN {<<"C13", "range">>} ELSE {})
+             \cup (IF held /\ Abs(v - e.yq) > Abs(v - y) + ep THEN {<<"C13", "retreats">>} ELSE {})
              \cup (IF held /\ ((y > v /\ e.yq < v) \/ (y < v /\ e.yq > v)) /\ Abs(v - e.yq) > EpsRes(e.yq)
-                     THEN {"C13:overshoot"} ELSE {})
+                     THEN {<<"C13", "overshoot">>} ELSE {})
              \cup CoverageTags(k', e.yq))
 
 TStretch ==
@@ -105,18 +105,18 @@ TStretch ==
         /\ UNCHANGED <<lo, hi, from, quiet, cached, eff, pole, fs, nEff>>
         /\ k' = k + e.n
         /\ Advance(
-             IF e.xq # x THEN {"C17:harness-stretch-changes-input"} ELSE
-             IF e.yq = NaNKey THEN {"C13:nan"} ELSE
-                  (IF e.ymin < Min2(v, y) - ep \/ e.ymax > Max2(v, y) + ep THEN {"C13:range"} ELSE {})
-             \cup (IF Abs(v - e.yq) > Abs(v - y) + ep THEN {"C13:retreats"} ELSE {})
+             IF e.xq # x THEN {<<"C17", "harness-stretch-changes-input">>} ELSE
+             IF e.yq = NaNKey THEN {<<"C13", "nan">>} ELSE
+                  (IF e.ymin < Min2(v, y) - ep \/ e.ymax > Max2(v, y) + ep THEN {<<"C13", "range">>} ELSE {})
+             \cup (IF Abs(v - e.yq) > Abs(v - y) + ep THEN {<<"C13", "retreats">>} ELSE {})
              \cup (IF (y >= v /\ v - e.ymin > EpsRes(e.yq)) \/ (y <= v /\ e.ymax - v > EpsRes(e.yq))
-                     THEN {"C13:overshoot"} ELSE {})
+                     THEN {<<"C13", "overshoot">>} ELSE {})
              \cup CoverageTags(k', e.yq))
 
-TPanic == /\ e.op = "panic" /\ UNCHANGED <<gVars, fs, nEff, from, k, quiet>> /\ Advance({"C17:panic"})
+TPanic == /\ e.op = "panic" /\ UNCHANGED <<gVars, fs, nEff, from, k, quiet>> /\ Advance({<<"C17", "panic">>})
 
 TNext == l <= NRec /\ (TMeta \/ TNew \/ TSetTime \/ TProcess \/ TStretch \/ TPanic)
-TInit == /\ GInit /\ l = 1 /\ dead = FALSE /\ fs = 1000 /\ nEff = 2 /\ from = 0 /\ k = 0 /\ quiet = FALSE
+TInit == /\ GInit /\ l = 1 /\ dead = {} /\ fs = 1000 /\ nEff = 2 /\ from = 0 /\ k = 0 /\ quiet = FALSE
          /\ FlagInit
 TSpec == TInit /\ [][TNext]_tvars
 =============================================================================
